@@ -252,6 +252,7 @@ pub fn run(o: &mut Out, tier: &str, seed: u64) {
     addresses(o, &mut r);
     // extra sub-fields (component records of the transaction extra): boundary sizes of every kind, alone and with a suffix
     crate::c16::run_subfield_rt(o, &mut r, if tier == "thorough" { 4000 } else { 400 });
+    crate::c16::run_extrafield_enc(o, &mut r, if tier == "thorough" { 2000 } else { 200 });
     // arrays `[T; 8 | 32 | 64]` of VARIABLE-WIDTH elements (the generic array encoder is public; the crate itself only uses fixed-width
     // elements): reported length == bytes written == the concatenation of the element encodings, also through a short-writing sink
     { fn arr_check<T: Encodable, A: Encodable + ?Sized>(o: &mut Out, a: &[T], whole: &A, what: &str) {
